@@ -78,6 +78,21 @@ def render_all(text):
     return "OK", None
 
 
+def render_strings(text):
+    """str() of every event the Lean model renders, same order as the driver's `strs` op; None if the parse fails"""
+    c, e, w = impl.parse(text)
+    if c is None:
+        return None
+    ins, dif = impl.enums()
+    out = [str(x) for x in c.sync_track.time_signature_events] + [str(x) for x in c.sync_track.anchor_events]
+    g = c.global_events_track
+    out += [str(x) for x in g.text_events] + [str(x) for x in g.section_events] + [str(x) for x in g.lyric_events]
+    keyed = sorted(((ins.index(i), dif.index(d)), tr) for i, dd in c.instrument_tracks.items() for d, tr in dd.items())
+    for _, tr in keyed:
+        out.append(";".join([str(tr)] + [str(n) for n in tr.note_events] + [str(s) for s in tr.star_power_events] + [str(t) for t in tr.track_events]))
+    return out
+
+
 def _chunk(args):
     seed, n = args
     rng = random.Random(seed)
@@ -128,7 +143,39 @@ def slice(ctx: fw.Ctx) -> fw.Outcome:
                 out.corr_mismatch("outcome class of a malformed text", rp, impl=o, model=m)
             elif m != o:
                 out.dist["diagnostic: documented classes differ (not an alarm for C18)"] += 1
+    renderings(ctx, out)
     return out
+
+
+def renderings(ctx, out):
+    """the modelled `__str__` family against the real one, character by character (BPMEvent prints a float: not modelled)"""
+    from .. import driver
+    rng = ctx.sub("render")
+    prof = gen.Profile(big_numbers=0.0, max_tracks=3)
+    texts = []
+    for _ in range(ctx.n(80, 8000)):
+        src = gen.rand_src(rng, prof)
+        if rng.random() < 0.3:  # long times: days in str(timedelta)
+            src.tempo = [(0, rng.choice([1, 2, 10]))] + src.tempo[1:]
+        texts.append(gen.render(src, rng, prof).text)
+    mod = driver.run_parallel([f"strs {driver.cps(t)}" for t in texts])
+    for t, m in zip(texts, mod):
+        try:
+            real = render_strings(t)
+        except Exception as ex:  # noqa: BLE001
+            out.violation("render-" + fw.h(t), f"rendering raised {type(ex).__name__}: {ex}", {**common.chart_replay(t), "render": True},
+                          observed=str(ex), promised="str() succeeds")
+            continue
+        if real is None:
+            continue
+        out.case("R" + fw.h(t), True, {"rendered": real[-1][:160]} if real and len(out.samples) < 4 else None, tags=["render"])
+        out.traces += 1
+        want = "|".join(impl.cps(x) for x in real)
+        if m != want:
+            a, b = want.split("|"), m.split("|")
+            k = next((i for i, (u, v) in enumerate(zip(a, b)) if u != v), min(len(a), len(b)))
+            out.corr_mismatch("str() of an event", common.chart_replay(t), impl=gen.uncps(a[k])[:200] if k < len(a) else "<missing>",
+                              model=(gen.uncps(b[k])[:200] if k < len(b) and not b[k].startswith(("E ", "CHART")) else (b[k] if k < len(b) else "<missing>")))
 
 
 def replay(ctx, data):
